@@ -2,7 +2,7 @@
 From Coq Require Import NArith ZArith List Bool Lia.
 From Coq Require String.
 Import String.StringSyntax.
-From AV Require Import Gen.Latin1Tables Gen.HandshakeConsts Model.Handshake.
+From AV Require Import Gen.Latin1Tables Gen.HandshakeConsts Model.Handshake Model.HandshakeRun.
 Import ListNotations.
 Open Scope N_scope.
 
@@ -2148,4 +2148,153 @@ Proof.
   - destruct ((p <? 1) || (65535 <? p))%Z eqn:B; [discriminate|]. apply orb_false_iff in B as [B1 B2].
     apply Z.ltb_ge in B1, B2. intros H. injection H as <-. exists scheme, (h0 :: host), (PortSome p), path, query, netloc.
     cbn [u_host u_secure u_port u_resource]. repeat split; try assumption; try discriminate; try apply R.
+Qed.
+
+
+
+(* ========================================================================================== *)
+(* exactness against the RFC 7230 line structure                                              *)
+
+Lemma rfc4_ok_as_lexed c e header : rfc4_ok c e header <-> rfc4_ok_on c e (splitlines header).
+Proof. reflexivity. Qed.
+
+Lemma client_ok_as_lexed c e key header proto exts :
+  client_ok c e key header proto exts <-> client_ok_on c e key (splitlines header) proto exts.
+Proof. reflexivity. Qed.
+
+Lemma linebreak_cases c : is_linebreak c = true -> c = 10 \/ c = 13 \/ In c odd_breaks.
+Proof.
+  intros H. apply memN_In in H. destruct (N.eqb_spec c 10) as [->|N10]; [now left|]. destruct (N.eqb_spec c 13) as [->|N13]; [right; now left|].
+  right. right. unfold odd_breaks. apply filter_In. split; [assumption|].
+  apply N.eqb_neq in N10, N13. now rewrite N10, N13.
+Qed.
+
+Definition head_not_cr (cur : str) : Prop := match cur with c :: _ => c <> 13 | [] => True end.
+
+Lemma splitlines_rfc_aux n : forall s cur, (length s <= n)%nat -> Forall (fun c => ~ In c odd_breaks) s -> cr_ok s = true ->
+  head_not_cr cur -> splitlines_aux cur false s = rfc_lines_aux cur s.
+Proof.
+  induction n as [|n IH]; intros s cur L F C H.
+  - destruct s; [reflexivity|cbn in L; lia].
+  - destruct s as [|c r]; [reflexivity|]. inversion F as [|? ? Fc Fr]; subst. cbn [length] in L.
+    cbn [splitlines_aux rfc_lines_aux andb].
+    destruct (N.eqb_spec c 10) as [->|N10].
+    + change (is_linebreak 10) with true. cbv iota. change (10 =? 13) with false.
+      assert (D : drop_cr cur = cur).
+      { destruct cur as [|x cur]; [reflexivity|]. cbn in H. cbn [drop_cr]. apply N.eqb_neq in H. now rewrite H. }
+      rewrite D. f_equal. apply IH; [lia|assumption|exact C|exact I].
+    + destruct (N.eqb_spec c 13) as [->|N13].
+      * change (is_linebreak 13) with true. cbv iota. change (13 =? 13) with true.
+        cbn [cr_ok] in C. change (13 =? 13) with true in C. cbv iota in C.
+        destruct r as [|d r']; [discriminate|]. apply andb_true_iff in C as [Ed C]. apply N.eqb_eq in Ed. subst d.
+        cbn [splitlines_aux andb]. change (10 =? 10) with true. cbv iota.
+        cbn [rfc_lines_aux]. change (10 =? 10) with true. cbv iota. cbn [drop_cr]. change (13 =? 13) with true. cbv iota.
+        f_equal. inversion Fr; subst. cbn [cr_ok] in C. change (10 =? 13) with false in C. cbv iota in C.
+        apply IH; [cbn [length] in L; lia|assumption|exact C|exact I].
+      * assert (NL : is_linebreak c = false).
+        { destruct (is_linebreak c) eqn:E; [|reflexivity]. apply linebreak_cases in E as [E|[E|E]]; contradiction. }
+        rewrite NL. cbn [cr_ok] in C. apply N.eqb_neq in N13. rewrite N13 in C.
+        apply IH; [lia|assumption|exact C|]. cbn. now apply N.eqb_neq.
+Qed.
+
+Theorem splitlines_rfc s : crlf_only s -> splitlines s = rfc_lines s.
+Proof. intros [F C]. unfold splitlines, rfc_lines. apply (splitlines_rfc_aux (length s)); [lia|assumption|assumption|exact I]. Qed.
+
+Theorem server_exact_rfc_partial c e header : crlf_only header ->
+  ((exists rq key, s_validate c e header = VOk rq key) <-> rfc4_ok_on c e (rfc_lines header)).
+Proof. intros H. rewrite <- (splitlines_rfc header H). apply s_validate_exact. Qed.
+
+Theorem client_exact_rfc_partial c e key data proto exts rest :
+  (forall h, split_eoh data = Some (h, rest) -> crlf_only h) ->
+  (c_process c e key data = COpen proto exts rest <->
+   exists h, split_eoh data = Some (h, rest) /\ client_ok_on c e key (rfc_lines h) proto exts).
+Proof.
+  intros H. rewrite c_process_open_iff. split; intros (h & S & K); exists h; (split; [assumption|]).
+  - rewrite <- (splitlines_rfc h (H h S)). exact K.
+  - rewrite <- (splitlines_rfc h (H h S)) in K. exact K.
+Qed.
+
+(* ---- the full-strength statements are false: octets that RFC 7230 treats as field content end a line for the code ---- *)
+Definition W_TABLES : tables :=
+  {| t_uri := [(lit "/", UriOk (lit "/") [] [])]; t_qs := [([], Some [])]; t_split := []; t_hl := []; t_offer := [];
+     t_accept := None; t_response := [] |}.
+Definition W_SCFG : scfg :=
+  {| s_flavour := Tx; s_versions := supported_protocol_versions; s_web_status := true; s_external_port := None; s_allowed_origins := [[42]];
+     s_allow_null_origin := true; s_max_connections := 0; s_count_connections := 1; s_serve_flash := false; s_server := []; s_headers := [] |}.
+(* no Sec-WebSocket-Key field: the key sits inside the Cookie value, after NEL (0x85) *)
+Definition W_REQUEST : str :=
+  lit "GET / HTTP/1.1" ++ CRLF ++ lit "Host: localhost:9000" ++ CRLF ++ lit "Upgrade: websocket" ++ CRLF ++ lit "Connection: Upgrade" ++ CRLF
+  ++ lit "Cookie: a=b" ++ [133] ++ lit "Sec-WebSocket-Key: dGhlIHNhbXBsZSBub25jZQ==" ++ CRLF ++ lit "Sec-WebSocket-Version: 13" ++ CRLF ++ CRLF.
+
+Theorem server_exact_rfc_refuted :
+  exists c e header, ~ ((exists rq key, s_validate c e header = VOk rq key) <-> rfc4_ok_on c e (rfc_lines header)).
+Proof.
+  exists W_SCFG, (run_env W_TABLES PNone), W_REQUEST. intros [HAB _].
+  assert (A : exists rq key, s_validate W_SCFG (run_env W_TABLES PNone) W_REQUEST = VOk rq key) by (vm_compute; eexists; eexists; reflexivity).
+  apply HAB in A. destruct A as (m & u & v & ver & _ & _ & _ & _ & _ & _ & _ & _ & _ & _ & (kv & Hk & _) & _).
+  vm_compute in Hk. discriminate.
+Qed.
+
+Definition W_CCFG : ccfg :=
+  {| c_host := lit "localhost"; c_port := 9000%Z; c_resource := [47]; c_useragent := []; c_origin := []; c_protocols := []; c_headers := [];
+     c_version := default_spec_version; c_offers := [] |}.
+Definition W_KEY : str := lit "dGhlIHNhbXBsZSBub25jZQ==".
+(* no Sec-WebSocket-Accept field: the digest sits inside another field's value, after FS (0x1c) *)
+Definition W_REPLY : str :=
+  lit "HTTP/1.1 101 Switching Protocols" ++ CRLF ++ lit "Upgrade: websocket" ++ CRLF ++ lit "Connection: Upgrade" ++ CRLF
+  ++ lit "X-Info: a" ++ [28] ++ lit "Sec-WebSocket-Accept: s3pPLMBiTxaQ9kYGzzhZRbK+xOo=" ++ CRLF ++ CRLF.
+
+Theorem client_exact_rfc_refuted :
+  exists c e key data proto exts rest,
+    ~ (c_process c e key data = COpen proto exts rest <->
+       exists h, split_eoh data = Some (h, rest) /\ client_ok_on c e key (rfc_lines h) proto exts).
+Proof.
+  exists W_CCFG, (run_env W_TABLES PNone), W_KEY, W_REPLY, None, [], []. intros [HAB _].
+  assert (A : c_process W_CCFG (run_env W_TABLES PNone) W_KEY W_REPLY = COpen None [] []) by (vm_compute; reflexivity).
+  apply HAB in A. destruct A as (h & S & ver & code & more & _ & _ & _ & _ & _ & (av & Ha & _) & _).
+  assert (E : h = W_REPLY) by (vm_compute in S; injection S as <-; reflexivity). subst h.
+  vm_compute in Ha. discriminate.
+Qed.
+
+(* the witnesses are exactly the excluded case of the partial theorems *)
+Lemma witnesses_not_crlf_only : ~ crlf_only W_REQUEST /\ ~ crlf_only W_REPLY.
+Proof.
+  split; intros [F _]; rewrite Forall_forall in F.
+  - apply (F 133); vm_compute; tauto.
+  - apply (F 28); vm_compute; tauto.
+Qed.
+
+(* ========================================================================================== *)
+(* connection limit over several connections                                                  *)
+
+Definition is_open (s : conn_status) : bool := match s with KOpen => true | KGone => false end.
+
+Lemma n_open_app a b : n_open (a ++ b) = n_open a + n_open b.
+Proof. unfold n_open. rewrite filter_app, app_length. lia. Qed.
+
+Lemma n_open_set_gone k l : nth_error l k = Some KOpen -> n_open (set_gone k l) + 1 = n_open l.
+Proof.
+  revert k; induction l as [|x l IH]; intros k H; [destruct k; discriminate|].
+  destruct k as [|k]; cbn [nth_error] in H.
+  - injection H as ->. cbn [set_gone]. unfold n_open. cbn [filter is_open length]. lia.
+  - cbn [set_gone]. specialize (IH k H). unfold n_open in *. cbn [filter]. destruct x; cbn [length]; lia.
+Qed.
+
+Theorem f_run_invariant mx ops :
+  let st := f_run mx ops in
+  f_count st = n_open (f_conns st) /\ (0 < mx -> n_open (f_conns st) <= mx).
+Proof.
+  cbv zeta. unfold f_run.
+  assert (G : forall st, (f_count st = n_open (f_conns st) /\ (0 < mx -> n_open (f_conns st) <= mx)) ->
+              let st' := fold_left (f_step mx) ops st in f_count st' = n_open (f_conns st') /\ (0 < mx -> n_open (f_conns st') <= mx)).
+  { induction ops as [|o ops IH]; intros st H; [exact H|]. cbn [fold_left]. apply IH. destruct H as [Hc Hm].
+    destruct o as [|k]; cbn [f_step].
+    - destruct ((0 <? mx) && (mx <? f_count st + 1)) eqn:B; cbn [f_count f_conns]; rewrite n_open_app.
+      + change (n_open [KGone]) with 0. split; [lia|]. intros P. specialize (Hm P). lia.
+      + change (n_open [KOpen]) with 1. split; [lia|]. intros P. apply andb_false_iff in B as [B|B].
+        * apply N.ltb_ge in B. lia.
+        * apply N.ltb_ge in B. lia.
+    - destruct (nth_error (f_conns st) k) as [[|]|] eqn:E; [|exact (conj Hc Hm)|exact (conj Hc Hm)].
+      cbn [f_count f_conns]. pose proof (n_open_set_gone k _ E). split; [lia|]. intros P. specialize (Hm P). lia. }
+  apply G. cbn. split; [reflexivity|]. intros _. apply N.le_0_l.
 Qed.
